@@ -481,4 +481,51 @@ theorem runK_plain_clean (b : VBody) (s : K (Co b.σ)) (es : List Ev) (h : Clean
   | nil => exact h
   | cons e es ih => exact ih _ (kstep_plain_clean b s e h)
 
+/-! ### small helpers used by the property files -/
+
+theorem split_run (es : List Ev) :
+    Ev.run ∉ es ∨ ∃ pre post, es = pre ++ Ev.run :: post ∧ Ev.run ∉ pre := by
+  induction es with
+  | nil => left; simp
+  | cons e es ih =>
+    by_cases he : e = .run
+    · right; exact ⟨[], es, by simp [he], by simp⟩
+    · rcases ih with h | ⟨pre, post, h1, h2⟩
+      · left; simp [h]
+        exact fun h' => he h'.symm
+      · right
+        refine ⟨e :: pre, post, by simp [h1], ?_⟩
+        simp [h2]
+        exact fun h' => he h'.symm
+
+theorem runK_append {κ : Type} (c : CStep κ) (s : K κ) (a b : List Ev) :
+    runK c s (a ++ b) = runK c (runK c s a) b := by
+  simp [runK, List.foldl_append]
+
+theorem mid_cases (mc : Bool) (held : Y) (F : Futs) :
+    (mid mc held F = [] ∨ mid mc held F = [.cancel] ∨ mid mc held F = [.cancel, .run])
+    ∧ (mid mc held F ≠ [] ↔ mc = true) := by
+  cases mc
+  · simp [mid]
+  · cases held <;> simp [mid]
+    split <;> simp
+
+theorem Co.resume_susp_log (b : VBody) (co : Co b.σ) (s : b.σ) (hs : co.st = .susp s) (r : Resume) (F : Futs) :
+    (Co.resume b co r F).1.log = (r, F) :: co.log := by
+  unfold Co.resume
+  rw [hs]
+  simp only [Co.after]
+  split <;> rfl
+
+theorem taskFinish_co {κ : Type} (t : Task) (x : κ × Out × Futs) : (taskFinish t x).co = x.1 := by
+  obtain ⟨a, o, F⟩ := x
+  cases o with
+  | ret v => rfl
+  | raise e => rfl
+  | yield y =>
+    cases y with
+    | bare => rfl
+    | tok n => rfl
+    | fut f => simp only [taskFinish]; split <;> rfl
+
 end Asynkit.Eager
